@@ -2,7 +2,7 @@ use crate::bitvec::*;
 use crate::engine::*;
 use crate::mem_store::Val;
 
-use super::type_conversion::Cast;
+use super::type_conversion::CastPresent;
 
 pub struct ValToNullableStr<'a> {
     pub vals: BufferRef<Val<'a>>,
@@ -54,14 +54,14 @@ pub struct NullableToVal<'a, T> {
     pub vals: BufferRef<Val<'a>>,
 }
 
-impl<'a, T: VecData<T> + Cast<Val<'a>> + 'a> VecOperator<'a> for NullableToVal<'a, T> {
+impl<'a, T: VecData<T> + CastPresent<'a> + 'a> VecOperator<'a> for NullableToVal<'a, T> {
     fn execute(&mut self, stream: bool, scratchpad: &mut Scratchpad<'a>) -> Result<(), QueryError> {
         let (input, present) = scratchpad.get_nullable(self.input);
         let mut vals = scratchpad.get_mut(self.vals);
         if stream { vals.clear(); }
         for i in 0..input.len() {
             if (*present).is_set(i) {
-                vals.push(input[i].cast());
+                vals.push(input[i].cast_present());
             } else {
                 vals.push(Val::Null);
             }
